@@ -17,10 +17,10 @@ ASSUMPTIONS = ["datetime / timedelta arithmetic of the stdlib"]
 
 
 def run(project, rep):
-    Z.z_r1_grammar(project, rep)
-    Z.z_r1b_separators(project, rep)
-    Z.z_r2_naive(project, rep)
-    Z.z_r3_writer_shape(project, rep)
-    L.l_r3_datetime(project, rep)
-    Z.z_r4_conversion(project, rep)
-    Z.z_r5_offset_sign(project, rep)
+    rep.run(Z.z_r1_grammar, project, rep)
+    rep.run(Z.z_r1b_separators, project, rep)
+    rep.run(Z.z_r2_naive, project, rep)
+    rep.run(Z.z_r3_writer_shape, project, rep)
+    rep.run(L.l_r3_datetime, project, rep)
+    rep.run(Z.z_r4_conversion, project, rep)
+    rep.run(Z.z_r5_offset_sign, project, rep)
